@@ -62,13 +62,13 @@ def replay(model, obligation):
                 pass
     # continuous-paging sessions (real class), with and without a paging state, plus two outstanding handlers
     from cassandra.connection import ContinuousPagingSession, ContinuousPagingState, DefaultEndPoint
-    for state in (None, ContinuousPagingState(4)):
+    for state, plain in ((None, 2), (ContinuousPagingState(4), 2), (None, 0), (ContinuousPagingState(4), 0)):
         c = _conn()
         c.endpoint = DefaultEndPoint('10.0.0.1')
         s = ContinuousPagingSession(7, None, None, c, state)
         c._continuous_paging_sessions[7] = s
         got = []
-        for i in range(2):
+        for i in range(plain):
             c._requests[i] = ((lambda r, i=i: got.append(i)), None, None)
         exc = Exception('io')
         try:
@@ -76,9 +76,9 @@ def replay(model, obligation):
             raised = None
         except Exception as e:
             raised = e
-        if raised is not None or sorted(got) != [0, 1] or list(s._page_queue) != [(None, None, exc)] or not s._stop:
-            fails.append('continuous paging session %s a paging state: defunct raised %r, handlers invoked %r, session queue %r'
-                         % ('with' if state else 'without', raised, got, list(s._page_queue)))
+        if raised is not None or sorted(got) != list(range(plain)) or list(s._page_queue) != [(None, None, exc)] or not s._stop:
+            fails.append('continuous paging session %s a paging state, %d plain requests outstanding: defunct raised %r, handlers invoked %r, session queue %r'
+                         % ('with' if state else 'without', plain, raised, got, list(s._page_queue)))
     return {'reproduced': bool(fails), 'detail': '; '.join(fails[:3]) or 'no disagreement'}
 
 
